@@ -822,7 +822,10 @@ where
                         }
                         _ => vec![],
                     };
-                    if properties.len() == 1 {
+                    if properties.is_empty() {
+                        // no member matches the index: unresolvable, let the caller report it
+                        None
+                    } else if properties.len() == 1 {
                         Some((*properties.remove(0)).clone())
                     } else {
                         Some(TsType::TsUnionOrIntersectionType(
@@ -950,7 +953,9 @@ where
                     }
                     _ => vec![],
                 };
-                if properties.len() == 1 {
+                if properties.is_empty() {
+                    None
+                } else if properties.len() == 1 {
                     Some(*properties.remove(0))
                 } else {
                     Some(TsType::TsUnionOrIntersectionType(
